@@ -52,7 +52,8 @@ IntDecl(st, n) == Idn(Tok(Idn(st, Name(n)), " : "), "int")
 RECURSIVE Cnt(_), CntSeq(_, _), CntHandlers(_, _)
 \* names consumed while building a tree
 Cnt(t) == CASE t[1] \in {"expr", "break", "return"} -> 0
-            [] t[1] = "decl" -> 1
+            [] t[1] \in {"decl", "arr"} -> 1
+            [] t[1] = "fun" -> 2
             [] t[1] = "block" -> CntSeq(t[2], 1)
             [] t[1] = "try" -> CntSeq(t[2], 1) + CntHandlers(t[3], 1)
             [] t[1] = "ifelse" -> Cnt(t[2]) + Cnt(t[3])
@@ -87,6 +88,16 @@ Visit(st, t, c) ==
      [] t[1] = "break" -> NeedNl(Tok(Idn(st, "break"), ";"))
      [] t[1] = "return" -> NeedNl(Tok(Raw(Tok(Idn(st, "return"), " "), "0"), ";"))
      [] t[1] = "decl" -> Tok(VarDecl(st, c + 1), ";")                       \* a declaration statement does not ask for a newline
+     \* v : [3] const *int (x\ty): an initialised variable; the tab of the literal is written as an escape
+     [] t[1] = "arr" ->
+           Tok(Tok(Raw(Tok(Idn(Tok(Idn(Tok(Raw(Tok(Tok(Idn(st, Name(c + 1)), " : "), "["), "3"), "]"), "const"), "*"), "int"), "("), "x\\ty"), ")"), ";")
+     \* an inline function definition: declaration line, then its mapping (parameters, exception specification, body) as a statement
+     [] t[1] = "fun" ->
+           LET parm(x) == IntDecl(x, c + 1)
+               a == Idn(Tok(parm(Tok(Raw(Idn(Tok(Idn(st, Name(c + 2)), " : "), "inline"), " "), "(")), ")"), "int")
+               b == NlIndent(NeedNl(a), 0)
+               d == Tok(Idn(Tok(Idn(Tok(Tok(parm(Tok(b, "(")), ")"), " "), "noexcept"), "("), "false"), ")")
+           IN Tok(Braces(d, << <<"return">> >>, c + 2), ";")
      [] t[1] = "block" -> Braces(st, t[2], c)
      [] t[1] = "try" -> Handlers(Braces(st, t[2], c), t[3], 1, c + CntSeq(t[2], 1))
      [] t[1] = "if" -> NeedNl(Indent(Stmt(NlIndent(Opening(st, "if"), 3), t[2], c), -3))
